@@ -5,7 +5,7 @@
    Proofs: Proofs/Glue_*.v.  No property file depends on this file; the property files carry one bridge
    theorem each (C03, C10, C15, C16, C17, C18, C19). *)
 From PV Require Import Lib.Base.
-From PV Require Proofs.Glue_certs Proofs.Glue_enc_certs Proofs.Glue_xsw Proofs.Glue_quote.
+From PV Require Proofs.Glue_certs Proofs.Glue_enc_certs Proofs.Glue_xsw Proofs.Glue_quote Proofs.Glue_time Proofs.Glue_sigver.
 Open Scope N_scope.
 
 (* ====================================================================================================
@@ -340,3 +340,88 @@ Theorem Glue_ident_decode_disagreement_witness :
 Proof. exact decode_disagreement_witness. Qed.
 Print Assumptions Glue_ident_decode_disagreement_witness.
 End G3.
+
+(* ====================================================================================================
+   4. time tests: time_util.before / valid (Model/MdStore.v, Model/Cache.v), validate_on_or_after / validate_before
+      (Model/Response.v), issue_instant_ok (Model/Response.v for C04, Model/Request.v for C10). *)
+Module G4.
+Import Glue_time.
+Open Scope Z_scope.
+
+Theorem Glue_time_specs :
+  (forall now p, not_past now p = true <-> now <= p) /\
+  (forall now slack t, day_window now slack t = true <-> now - 86400 - slack <= t < now + 86400 + slack).
+Proof. split; [exact not_past_spec|exact day_window_spec]. Qed.
+Print Assumptions Glue_time_specs.
+
+(* every "has this point passed" test is not_past *)
+Theorem Glue_expiry_tests_are_one :
+  (forall now t, MS.valid now (Some t) = not_past now t) /\
+  (forall now z, CA.t_before now (CA.At z) = not_past now z /\ CA.t_after now (CA.At z) = negb (not_past now z)) /\
+  (forall c t, is_ok (RS.validate_on_or_after c (Some t)) = not_past (RS.now c) (t + RS.slack c) /\
+               is_ok (RS.validate_before c (Some t)) = not_past t (RS.now c + RS.slack c)).
+Proof.
+  split; [intros now t; apply mdstore_valid_is_not_past|]. split; [intros now z; split; apply cache_tests_are_not_past|].
+  exact response_lifetime_tests_are_not_past.
+Qed.
+Print Assumptions Glue_expiry_tests_are_one.
+
+(* the IssueInstant window of responses (C04) and requests (C10) is one predicate *)
+Theorem Glue_issue_instant_windows_are_one :
+  (forall c t, RS.issue_instant_ok c t = day_window (RS.now c) (RS.slack c) t) /\
+  (forall c t, RQ.issue_instant_ok c t = day_window (RQ.c_now c) (RQ.c_slack c) t) /\
+  (forall c t, RQ.in_window c t <-> day_window (RQ.c_now c) (RQ.c_slack c) t = true) /\
+  (forall now s1 s2 t, s1 <= s2 -> day_window now s1 t = true -> day_window now s2 t = true).
+Proof.
+  split; [apply issue_instant_windows_are_day_window|]. split; [apply issue_instant_windows_are_day_window|].
+  split; [exact request_in_window_is_day_window|exact day_window_mono].
+Qed.
+Print Assumptions Glue_issue_instant_windows_are_one.
+
+(* C04 next to C19: accepted inside the allowance = stored already expired (the cache applies no allowance) *)
+Theorem Glue_accepted_inside_allowance_is_expired_in_cache :
+  forall c nooa, is_ok (RS.validate_on_or_after c (Some nooa)) = true -> nooa < RS.now c ->
+    CA.t_after (RS.now c) (CA.At nooa) = true /\ CA.t_before (RS.now c) (CA.At nooa) = false.
+Proof. exact accepted_inside_allowance_is_expired_in_cache. Qed.
+Print Assumptions Glue_accepted_inside_allowance_is_expired_in_cache.
+End G4.
+
+(* ====================================================================================================
+   5. the last step of _check_signature (Model/Sigver.v for C20 / C03 vs Model/Request.v for C10) and Request.verify
+      (Model/Status.v vs Model/Request.v). *)
+Module G5.
+Import Sigver Glue_sigver.
+
+Theorem Glue_request_check_sig_is_check_signature_runs :
+  forall pre fixd c d nm ovc,
+    RQ.check_sig pre fixd c d nm ovc =
+    match RQ.request_certs c d with
+    | Err e => Err e
+    | Ok certs =>
+        let i := RQ.root_id (RQ.d_tree d) in
+        if pre && negb (RQ.enveloped_ok (RQ.d_tree d) nm i) then Err (s2l "SignatureError") else
+        let f := Xmlsec.tool_verify (RQ.c_dupfail c) (RQ.d_tree d) nm (RQ.node_id_arg i) in
+        check_signature_runs false (map (fun k => run_of (f k)) certs)
+                             (if fixd then false else ovc) (last_tried_valid c (find f certs) certs)
+    end.
+Proof. exact request_check_sig_is_check_signature_runs. Qed.
+Print Assumptions Glue_request_check_sig_is_check_signature_runs.
+
+(* Model/Sigver.v's only_valid_cert = true branch is the code BEFORE the F16 repair: not the library any more *)
+Theorem Glue_check_signature_runs_stale_branch_witness :
+  check_signature_runs false [run_of false] true true = Ok tt /\
+  check_signature_runs false [run_of false] false true = Err (s2l "SignatureError") /\
+  (forall c d nm, RQ.request_certs c d = Ok [7%N] -> RQ.cert_ok c 7 = true ->
+      Xmlsec.tool_verify (RQ.c_dupfail c) (RQ.d_tree d) nm (RQ.node_id_arg (RQ.root_id (RQ.d_tree d))) 7 = false ->
+      RQ.check_sig false true c d nm true = Err (s2l "SignatureError") /\
+      RQ.check_sig false false c d nm true = Ok tt).
+Proof. exact check_signature_runs_only_valid_cert_branch_is_stale. Qed.
+Print Assumptions Glue_check_signature_runs_stale_branch_witness.
+
+Theorem Glue_request_verify_same :
+  forall c addrs d,
+    ST.request_verify (verify_view c addrs d) =
+    match RQ.verify c addrs d with Err e => Err e | Ok None => Ok None | Ok (Some _) => Ok (Some tt) end.
+Proof. exact request_verify_same. Qed.
+Print Assumptions Glue_request_verify_same.
+End G5.
